@@ -7,11 +7,14 @@ EXPLANATION = ""
 
 HARNESSES = [
     dict(name="sort_stable", file="sort_stable.c", label="bounded(files<=5)", timeout=900,
-         fp={"*": "stub_none"},
+         fp={"get_filename": "stub_get_filename"},
          cases=[dict(id="n%d" % n, defines={"N": n}, unwind=n + 2,
                      tier="quick" if n <= 5 else "thorough",
                      label="bounded(files<=5)" if n <= 5 else "bounded(files<=7)") for n in range(8)]),
     dict(name="sort_match", file="sort_match.c", label="bounded(files<=3, fixed 5-line sort file)", timeout=900,
          fp={"get_filename": "stub_get_filename"},
          cases=[dict(id="n%d" % n, defines={"N": n}, unwind=50, tier="quick") for n in (1, 2, 3)]),
+    dict(name="flags_decode", file="flags_decode.c", label="bounded(all keyword subsets x glob variants, 2 orders)",
+         timeout=300, fp={"get_filename": "stub_get_filename"},
+         cases=[dict(id="part%d" % p, defines={"PART": p}, unwind=170, tier="quick") for p in (0, 1, 2)]),
 ]
